@@ -320,6 +320,11 @@ class QvmCode(BaseCode):
             ):
                 arg, = prev1.args
 
+                # The value as the pushed cell holds it (a SINGLE
+                # operand is rounded to 32 bits when it is pushed)
+                prev1_type = expr.Type.from_type_char(prev1.type_char)
+                arg = prev1_type.coerce(arg)
+
                 # Convert the argument to the dest type
                 cur_type = expr.Type.from_type_char(cur.type_char)
                 if cur_type.is_integral and \
